@@ -223,6 +223,7 @@ def run(eng, rep):
                 "output of a Dykstra call whose last projector clamps against copies of the user's bounds; T11 inventory of every mutation of a list that may hold "
                 "user projections (only fresh copies are mutated; solve appends the box once, to a fresh list); scaling is None whenever projections are given "
                 "(interpreter run with both requested).")
+    rep.explain('Also decided: every Dykstra call performs at least one sweep (C09-6); dykstra never re-assigns its tolerance / sweep limit (C09-3b); one-sided bound patterns with projections.')
     rep.not_decided += ["the sqrt(p*tol) distance bound itself (numerical; its structural premises are C15-3/4)"]
     rep.note("C09", "dfols/model.py", "Model calls dykstra with its default max_iter/tol rather than the dykstra.* parameters (observation, not part of the statement)")
     rule_evaluations_are_dykstra_outputs(eng, rep)
